@@ -9,18 +9,99 @@ Local Open Scope N_scope.
 (* url_concat = urlunparse(urlparse(url) with query := urlencode(parse_qsl(query) + args)) *)
 (* ------------------------------------------------------------------ *)
 (* Scope of the model (everything else is UcOutOfModel, never produced by the generator):
-   ASCII text; percent escapes in the existing query that decode to ASCII; and a "simple
-   head" (the part before '?' / '#'), for which urlunparse(urlparse(head)) = head is
-   ASSUMED (tied by the correspondence only): http(s)://host[:port][/path] or /path or
-   empty, without ';'. *)
-Inductive uc_result := UcOk (s : str) | UcOutOfModel.
+   a "simple head" (the part before '?' / '#'), for which urlunparse(urlparse(head)) = head
+   is ASSUMED (tied by the correspondence only): http(s)://host[:port][/path] or /path or
+   empty, without ';'.  Query, fragment and arguments are arbitrary Unicode text: UTF-8
+   encoding (strict; lone surrogates raise UnicodeEncodeError) and decoding with
+   errors='replace' are modelled. *)
+Inductive uc_result := UcOk (s : str) | UcEncodeError | UcOutOfModel.
 
 Definition is_ascii_str (s : str) : bool := forallb (fun c => c <? 128) s.
 Definition is_hex c := is_digit c || in_range 65 70 c || in_range 97 102 c.
 Definition hex_val c := if is_digit c then c - 48 else if in_range 65 70 c then c - 55 else c - 87.
 Definition hex_digit (n : N) : N := if n <? 10 then 48 + n else 55 + n.   (* upper case *)
 
-(* urllib.parse._unquote_impl on ASCII text *)
+(* ---- UTF-8 ---- *)
+(* str.encode('utf-8') of one code point; None = UnicodeEncodeError (surrogate) *)
+Definition utf8_encode_cp (c : N) : option (list N) :=
+  if c <? 128 then Some [c]
+  else if c <? 2048 then Some [192 + c / 64; 128 + c mod 64]
+  else if c <? 65536 then
+    if in_range 55296 57343 c then None
+    else Some [224 + c / 4096; 128 + (c / 64) mod 64; 128 + c mod 64]
+  else if c <? 1114112 then
+    Some [240 + c / 262144; 128 + (c / 4096) mod 64; 128 + (c / 64) mod 64; 128 + c mod 64]
+  else None.
+Fixpoint utf8_encode (s : str) : option (list N) :=
+  match s with
+  | [] => Some []
+  | c :: r => match utf8_encode_cp c, utf8_encode r with
+              | Some a, Some b => Some (a ++ b)
+              | _, _ => None
+              end
+  end.
+
+Definition is_cont (b : N) : bool := in_range 128 191 b.
+(* second byte of a 3- / 4-byte sequence: continuation, not overlong, not a surrogate / beyond U+10FFFF *)
+Definition second_ok3 (b0 b1 : N) : bool :=
+  is_cont b1 && (if b0 =? 224 then 160 <=? b1 else true) && (if b0 =? 237 then b1 <? 160 else true).
+Definition second_ok4 (b0 b1 : N) : bool :=
+  is_cont b1 && (if b0 =? 240 then 144 <=? b1 else true) && (if b0 =? 244 then b1 <? 144 else true).
+Definition REPL : N := 65533.
+
+(* bytes.decode('utf-8', 'replace') (CPython: one U+FFFD per maximal invalid prefix; a valid
+   but truncated sequence at the end is replaced as a whole) *)
+Fixpoint utf8_decode (bs : list N) : str :=
+  match bs with
+  | [] => []
+  | b0 :: r =>
+      if b0 <? 128 then b0 :: utf8_decode r
+      else if in_range 194 223 b0 then
+        match r with
+        | [] => [REPL]
+        | b1 :: r1 =>
+            if is_cont b1 then ((b0 - 192) * 64 + (b1 - 128)) :: utf8_decode r1
+            else REPL :: utf8_decode r
+        end
+      else if in_range 224 239 b0 then
+        match r with
+        | [] => [REPL]
+        | b1 :: r1 =>
+            if second_ok3 b0 b1 then
+              match r1 with
+              | [] => [REPL]
+              | b2 :: r2 =>
+                  if is_cont b2
+                  then ((b0 - 224) * 4096 + (b1 - 128) * 64 + (b2 - 128)) :: utf8_decode r2
+                  else REPL :: utf8_decode r1
+              end
+            else REPL :: utf8_decode r
+        end
+      else if in_range 240 244 b0 then
+        match r with
+        | [] => [REPL]
+        | b1 :: r1 =>
+            if second_ok4 b0 b1 then
+              match r1 with
+              | [] => [REPL]
+              | b2 :: r2 =>
+                  if is_cont b2 then
+                    match r2 with
+                    | [] => [REPL]
+                    | b3 :: r3 =>
+                        if is_cont b3
+                        then ((b0 - 240) * 262144 + (b1 - 128) * 4096 + (b2 - 128) * 64 + (b3 - 128))
+                             :: utf8_decode r3
+                        else REPL :: utf8_decode r2
+                    end
+                  else REPL :: utf8_decode r1
+              end
+            else REPL :: utf8_decode r
+        end
+      else REPL :: utf8_decode r
+  end.
+
+(* urllib.parse._unquote_impl on an ASCII run: text -> bytes *)
 Fixpoint pct_decode (s : str) : str :=
   match s with
   | [] => []
@@ -38,34 +119,46 @@ Fixpoint pct_decode (s : str) : str :=
       else c :: pct_decode r
   end.
 
-(* x.replace('+', ' ') then unquote(x); None when a decoded byte is not ASCII *)
-Definition unquote_plus (s : str) : option str :=
-  let d := pct_decode (map (fun c => if c =? 43 then 32 else c) s) in
-  if is_ascii_str d then Some d else None.
+(* urllib.parse._generate_unquoted_parts: maximal ASCII runs are percent-decoded and then
+   UTF-8-decoded (separately); non-ASCII characters are kept.  [run] is the current ASCII
+   run, reversed. *)
+Definition flush_run (run : str) : str := utf8_decode (pct_decode (rev run)).
+Fixpoint unquote_runs (s : str) (run : str) : str :=
+  match s with
+  | [] => flush_run run
+  | c :: r => if c <? 128 then unquote_runs r (c :: run)
+              else flush_run run ++ c :: unquote_runs r []
+  end.
+(* urllib.parse.unquote(s, 'utf-8', 'replace') *)
+Definition unquote (s : str) : str := if memN 37 s then unquote_runs s [] else s.
+(* x.replace('+', ' ') then unquote(x) *)
+Definition plus_to_sp (c : N) : N := if c =? 43 then 32 else c.
+Definition unquote_plus (s : str) : str := unquote (map plus_to_sp s).
 
 (* urllib.parse.parse_qsl(q, keep_blank_values=True) *)
-Fixpoint qsl_fields (fs : list str) : option (list (str * str)) :=
+Fixpoint qsl_fields (fs : list str) : list (str * str) :=
   match fs with
-  | [] => Some []
+  | [] => []
   | f :: r =>
       if is_nil f then qsl_fields r
       else
         let '(n, v) := match split_first 61 f with Some (n, v) => (n, v) | None => (f, []) end in
-        match unquote_plus n, unquote_plus v, qsl_fields r with
-        | Some n', Some v', Some rest => Some ((n', v') :: rest)
-        | _, _, _ => None
-        end
+        (unquote_plus n, unquote_plus v) :: qsl_fields r
   end.
-Definition parse_qsl (q : str) : option (list (str * str)) :=
-  if is_nil q then Some [] else qsl_fields (split_all 38 q).
+Definition parse_qsl (q : str) : list (str * str) :=
+  if is_nil q then [] else qsl_fields (split_all 38 q).
 
-(* urllib.parse.quote_plus(s, safe='') on ASCII *)
+(* urllib.parse.quote_plus(s, safe='') : UTF-8 bytes, then per byte *)
 Definition always_safe c := is_alnum c || memN c [95; 46; 45; 126].
 Definition quote_plus_c (c : N) : str :=
   if always_safe c then [c]
   else if c =? 32 then [43]
   else [37; hex_digit (c / 16); hex_digit (c mod 16)].
-Definition quote_plus (s : str) : str := flat_map quote_plus_c s.
+Definition quote_plus (s : str) : option str :=
+  match utf8_encode s with
+  | Some bs => Some (flat_map quote_plus_c bs)
+  | None => None
+  end.
 
 Fixpoint join_with (d : N) (parts : list str) : str :=
   match parts with
@@ -73,8 +166,18 @@ Fixpoint join_with (d : N) (parts : list str) : str :=
   | [p] => p
   | p :: r => p ++ d :: join_with d r
   end.
-Definition urlencode (l : list (str * str)) : str :=
-  join_with 38 (map (fun kv => quote_plus (fst kv) ++ 61 :: quote_plus (snd kv)) l).
+Fixpoint enc_pairs (l : list (str * str)) : option (list str) :=
+  match l with
+  | [] => Some []
+  | (k, v) :: r =>
+      match quote_plus k, quote_plus v, enc_pairs r with
+      | Some k', Some v', Some r' => Some ((k' ++ 61 :: v') :: r')
+      | _, _, _ => None
+      end
+  end.
+(* None = UnicodeEncodeError *)
+Definition urlencode (l : list (str * str)) : option str :=
+  match enc_pairs l with Some fs => Some (join_with 38 fs) | None => None end.
 
 Fixpoint strip_prefix (p s : str) : option str :=
   match p, s with
@@ -112,15 +215,12 @@ Definition url_parts (u : str) : str * str * str :=      (* head, query, fragmen
 Definition url_unparts (head query frag : str) : str :=
   head ++ (if is_nil query then [] else 63 :: query) ++ (if is_nil frag then [] else 35 :: frag).
 
-Definition args_ascii (args : list (str * str)) : bool :=
-  forallb (fun kv => is_ascii_str (fst kv) && is_ascii_str (snd kv)) args.
-
 Definition url_concat (u : str) (args : list (str * str)) : uc_result :=
   let '(head, query, frag) := url_parts u in
-  if is_ascii_str u && args_ascii args && simple_head head then
-    match parse_qsl query with
-    | Some old => UcOk (url_unparts head (urlencode (old ++ args)) frag)
-    | None => UcOutOfModel
+  if simple_head head then
+    match urlencode (parse_qsl query ++ args) with
+    | Some q => UcOk (url_unparts head q frag)
+    | None => UcEncodeError
     end
   else UcOutOfModel.
 
